@@ -51,6 +51,19 @@ def full_file(fid):
     return ct.mkfile("F%d" % fid, [(i * 3 + fid) & 255 for i in range(ng * ct.GB - 20)], 2, 0, 0x0E00 + fid, 0x0E10)
 
 
+def import_cli(*names):
+    """import the command line modules; a module that runs its main() on import (a broken `if __name__ == "__main__"` guard) must surface as an
+    exception of the harness, not kill a pool worker with SystemExit (which would hang the pool)"""
+    import importlib
+    out = []
+    for n in names:
+        try:
+            out.append(importlib.import_module(n))
+        except BaseException as e:
+            raise RuntimeError("importing %s.py executed code that ended with %s: %s" % (n, type(e).__name__, e))
+    return out if len(out) > 1 else out[0]
+
+
 def run_main(mod, argv):
     out = io.StringIO()
     code = 0
@@ -89,7 +102,7 @@ def observe(path, sw, changed):
 
 def replay(args):
     """history = {"init": content, "cmds": [...], "full": bool}; returns the Tr_Host record"""
-    import assembler, file_util
+    assembler, file_util = import_cli("assembler", "file_util")
     from cocoasm import _verif
     hid, h = args
     W = tempfile.mkdtemp(prefix="host", dir=os.environ.get("VERIF_SCRATCH"))
